@@ -34,6 +34,11 @@ type RtRefreshManager struct {
 	ctx      context.Context
 	cancel   context.CancelFunc
 	refcount sync.WaitGroup
+	// closeLk orders the refcount.Go of a refresh request before the
+	// refcount.Wait of Close, or keeps it out altogether: adding to a
+	// WaitGroup whose counter is zero concurrently with a Wait panics.
+	closeLk sync.Mutex
+	closed  bool
 
 	// peerId of this DHT peer i.e. self peerId.
 	h         host.Host
@@ -96,6 +101,9 @@ func (r *RtRefreshManager) Start() {
 }
 
 func (r *RtRefreshManager) Close() error {
+	r.closeLk.Lock()
+	r.closed = true
+	r.closeLk.Unlock()
 	r.cancel()
 	r.refcount.Wait()
 	return nil
@@ -108,6 +116,13 @@ func (r *RtRefreshManager) Close() error {
 // error and close. The channel is buffered and safe to ignore.
 func (r *RtRefreshManager) Refresh(force bool) <-chan error {
 	resp := make(chan error, 1)
+	r.closeLk.Lock()
+	defer r.closeLk.Unlock()
+	if r.closed {
+		resp <- context.Canceled
+		close(resp)
+		return resp
+	}
 	r.refcount.Go(func() {
 		select {
 		case r.triggerRefresh <- &triggerRefreshReq{respCh: resp, forceCplRefresh: force}:
